@@ -308,6 +308,7 @@ def _mutants():
     from selftest.mutate import Mutant as M
     P = "_parsing.py"
     return [
+        M("repaired:textgrid-path-forwards-point-tier", "_parsing.py", "return write_textgrid(transcript, tg, start_time, end_time, tier_name, precision=precision)", "return write_textgrid(transcript, tg, start_time, end_time, tier_name, point_tier, precision)", "", twin=True),
         M("root-alternates-not-drained", "_parsing.py", "transcript.append((alt_tree.tokens[0], -1, -1))\n                alt_tree.tokens = []", "transcript.append((alt_tree.tokens[0], -1, -1))", "emitted-accumulator-is-drained"),
         M("twin:drained-by-clear", "_parsing.py", "transcript.append((alt_tree.tokens[0], -1, -1))\n                alt_tree.tokens = []", "transcript.append((alt_tree.tokens[0], -1, -1))\n                alt_tree.tokens.clear()", "", twin=True),
         M("imap-unordered", P, "transcripts = pool.imap(_trn_line_to_transcript", "transcripts = pool.imap_unordered(_trn_line_to_transcript", "order-preserving"),
